@@ -108,11 +108,12 @@ def run(pid, tier, replay=None):
              ("adv", "LpLinkMC.tla", LP_MC % ("adv", "StoreSound NeverTwice", "PROPERTIES P_C10rx P_C04rx"), 4, 900)],
             [("TestLpSend", {"VERIF_FULL": 1 if th else 0}, "lp_send.ndjson", "LpTrace.tla", LP_HEAD, [], ["I_C10send", "I_nopanic"]),
              ("TestLpRx", {"VERIF_N": 3000 if th else 300}, "lp_rx.ndjson", "LpTrace.tla", LP_HEAD, ["P_C10rx", "T_C10intact"], ["I_C10single", "I_nopanic", "StoreSound"]),
-             ("TestLpLocal", {}, "lp_local.ndjson", "LpTrace.tla", LP_HEAD, [], ["I_C10local", "I_nopanic"])],
+             ("TestLpLocal", {}, "lp_local.ndjson", "LpTrace.tla", LP_HEAD, [], ["I_C10local", "I_nopanic"]),
+             ("TestLpCong", {}, "lp_cong.ndjson", "LpTrace.tla", LP_HEAD, [], ["I_C10cong", "I_nopanic"])],
             "sender: sweep of packet sizes around every MTU boundary x 12 MTUs (thorough: +235 MTUs, every size near the boundaries) x token/mark/incoming-face/fragmentation variants, "
             "each frame decoded and checked by SendOK; receiver: every delivery order of two fragmented messages + shuffled interleavings (with duplicates) of up to three, "
             "checked by RxOK and byte/token/mark identity; local header fields (NextHopFaceId, CachePolicy, congestion mark, PIT token) x the options that admit them, 64 combinations; non-trivial = execution with a fragmented message",
-            ["TLC, JVM, Go runtime trusted", "in-memory transport (fw/face/verif_hooks.go); congestion marking by queue length not exercised", "one-frame tolerance Slack = 64 bytes (DESIGN C10)"],
+            ["TLC, JVM, Go runtime trusted", "in-memory transport (fw/face/verif_hooks.go) whose reported send-queue length is set by the driver", "one-frame tolerance Slack = 64 bytes (DESIGN C10)"],
             lambda ex: any((r.get("ev") == "send" and len(r.get("frames", [])) > 1) or (r.get("ev") == "rx" and r["f"]["cnt"] > 1) for r in ex))
     return run_multi(pid, tier, "link",
         [("stream", "StreamMC.tla", ST_MC % (5 if th else 4), 12, 3000),
